@@ -4,6 +4,7 @@
 // the universe is looked up with every flag combination and compared with a linear-scan
 // reference matcher written from the property statement.
 #include <algorithm>
+#include <deque>
 #include <functional>
 #include <memory>
 #include <sstream>
@@ -22,6 +23,22 @@ using c08::Def;
 using c08::ANY;
 
 static vp::Result R;
+
+// virtual clock (message.cpp reads time() for update/change times which the conditions look at)
+static time_t g_now = 1700000000;
+extern "C" time_t time(time_t* t) noexcept {
+  if (t) *t = g_now;
+  return g_now;
+}
+
+// environment of a state with conditional definitions: value of the message the conditions refer to
+// (0 = never received, 1 = [isA] holds, 2 = [isB] holds, 3 = neither) and the onlyAvailable lookup argument
+struct Env {
+  int code;
+  bool onlyAvailable;
+};
+static const Env ENVS[] = {{0, true}, {1, true}, {2, true}, {3, true}, {3, false}};
+static bool refAvailable(const Def& d, const Env* env) { return !env || d.cond == 0 || d.cond == env->code; }
 
 // ---------------------------------------------------------------------------------------------
 // reference matcher (from the statement; never looks at keys, hashes or probe order)
@@ -78,11 +95,13 @@ static const char* dirName(const Def& d) {
 }
 
 // result: index into universe, -1 = nullptr, -2 = something that is not a loaded definition
-static Verdict judge(const vector<Def>& U, const vector<int>& loaded, const Tele& t, unsigned f, int result) {
+static Verdict judge(const vector<Def>& U, const vector<int>& loaded, const Tele& t, unsigned f, int result, const Env* env = nullptr) {
   Verdict v;
   int best = -1, bestLen = -1;
+  bool onlyAvail = env && env->onlyAvailable;
   for (int di : loaded) {
     int l; const char* why;
+    if (onlyAvail && !refAvailable(U[di], env)) continue;   // "currently available definition"
     if (refMatch(U[di], t, f, &l, &why) == 2 && l > bestLen) { bestLen = l; best = di; }
   }
   char b[256];
@@ -102,6 +121,14 @@ static Verdict judge(const vector<Def>& U, const vector<int>& loaded, const Tele
       v.detail = b;
       return v;
     }
+    if (onlyAvail && !refAvailable(U[result], env)) {
+      // find() doc: onlyAvailable "true to include only available messages"
+      v.rule = "returned-unavailable";
+      v.sig = string("C08/returned-unavailable/") + kindName(U[result]) + "-" + dirName(U[result]);
+      snprintf(b, sizeof(b), "find(onlyAvailable=true) returned n%02d whose condition is not fulfilled", result);
+      v.detail = b;
+      return v;
+    }
     if (l < bestLen) {
       const Def& g = U[result]; const Def& w = U[best];
       string rel = "other";
@@ -118,6 +145,7 @@ static Verdict judge(const vector<Def>& U, const vector<int>& loaded, const Tele
       }
       v.rule = "shorter-id";
       v.sig = string("C08/shorter-id/got-") + kindName(g) + "/want-" + kindName(w) + "/" + rel;
+      if (rel == "other" && w.cond) v.sig += "/want-conditional";
       snprintf(b, sizeof(b), "find() returned n%02d (ID length %d) although loaded n%02d matches with ID length %d",
                result, l, best, bestLen);
       v.detail = b;
@@ -129,7 +157,7 @@ static Verdict judge(const vector<Def>& U, const vector<int>& loaded, const Tele
     v.rule = "missed";
     v.sig = string("C08/missed/want-") + kindName(U[best]) + "-" + dirName(U[best]) + "/" +
             (U[best].dst == ANY ? "dst-any" : U[best].dst == 0xfe ? "dst-broadcast" : isMaster((symbol_t)U[best].dst) ? "dst-master" : "dst-slave") +
-            (U[best].idLen() > 4 ? "/id-gt4" : "/id-le4");
+            (U[best].idLen() > 4 ? "/id-gt4" : "/id-le4") + (U[best].cond ? "/want-conditional" : "");
     snprintf(b, sizeof(b), "find() returned nullptr although loaded n%02d matches with ID length %d", best, bestLen);
     v.detail = b;
   }
@@ -178,6 +206,15 @@ static void refSelfTest(const vector<Def>& U) {
     fprintf(stderr, "reference self-test failed: judge\n");
     exit(5);
   }
+  // availability: [isA] n40 and [isB] n41 differ in their condition only
+  Env eA{1, true}, eB{2, true}, eN{3, true}, eNall{3, false};
+  if (!judge(U, {40, 41}, tl, ALL, 40, &eA).rule.empty() || judge(U, {40, 41}, tl, ALL, 40, &eB).rule != "returned-unavailable" ||
+      judge(U, {40, 41}, tl, ALL, -1, &eB).rule != "missed" || !judge(U, {40, 41}, tl, ALL, 41, &eB).rule.empty() ||
+      !judge(U, {40, 41}, tl, ALL, -1, &eN).rule.empty() || judge(U, {40, 41}, tl, ALL, -1, &eNall).rule != "missed" ||
+      judge(U, {2, 40, 41}, tl, ALL, 2, &eB).rule != "shorter-id" || !judge(U, {2, 40, 41}, tl, ALL, 2, &eN).rule.empty()) {
+    fprintf(stderr, "reference self-test failed: availability\n");
+    exit(5);
+  }
 }
 
 // ---------------------------------------------------------------------------------------------
@@ -197,10 +234,13 @@ struct Built {
   std::unique_ptr<MessageMap> map;
   vector<int> loaded;       // universe indices accepted by the loader, in insertion order
   vector<result_t> results; // per definition of the order
+  string envLog;            // what was done for the environment
+  bool availabilityOk = true;  // isAvailable() of every loaded definition agrees with the environment model
 };
 
-static Built build(const vector<Def>& U, const vector<int>& order) {
+static Built build(const vector<Def>& U, const vector<int>& order, const Env* env = nullptr) {
   Built b;
+  g_now += 10;
   b.map.reset(new MessageMap(false, "", false));
   b.map->setResolver(&g_resolver);
   unsigned lineNo = 0;
@@ -208,12 +248,47 @@ static Built build(const vector<Def>& U, const vector<int>& order) {
   string err;
   std::istringstream hdr("#");
   b.map->readLineFromStream(&hdr, "c08", false, &lineNo, &row, &err, false, nullptr, nullptr);  // default columns
+  if (env) {
+    for (auto line : c08::COND_PRELUDE) {
+      std::istringstream is(line);
+      result_t r = b.map->readLineFromStream(&is, "c08", false, &lineNo, &row, &err, false, nullptr, nullptr);
+      if (r != RESULT_OK) { fprintf(stderr, "prelude line %s: %s %s\n", line, getResultCode(r), err.c_str()); exit(5); }
+    }
+  }
   for (int di : order) {
     std::istringstream is(c08::defLine(U[di], di));
     result_t r = b.map->readLineFromStream(&is, "c08", false, &lineNo, &row, &err, false, nullptr, nullptr);
     R.transitions++;
     b.results.push_back(r);
     if (r == RESULT_OK) b.loaded.push_back(di);
+  }
+  if (env) {
+    string e;
+    result_t r = b.map->resolveConditions(false, &e);
+    R.transitions++;
+    b.envLog = string("resolveConditions -> ") + getResultCode(r);
+    if (env->code) {
+      g_now += 10;
+      Message* code = b.map->find("c", "code", "", false);
+      MasterSymbolString ms; SlaveSymbolString ss;
+      for (symbol_t c : {0x31, 0x08, 0xb5, 0xff, 0x01, 0x43}) ms.push_back(c);
+      ss.push_back(0x01); ss.push_back((symbol_t)env->code);
+      result_t sr = code ? code->storeLastData(ms, ss) : RESULT_ERR_NOTFOUND;
+      R.transitions++;
+      g_now += 10;
+      b.envLog += string("; message c/code received with value ") + std::to_string(env->code) + " -> " + getResultCode(sr);
+    } else {
+      b.envLog += "; message c/code never received";
+    }
+    // the model of the environment must agree with the implementation's own view, otherwise the oracle is void
+    for (int di : b.loaded) {
+      char nm[8]; snprintf(nm, sizeof(nm), "n%02d", di);
+      Message* m = nullptr;
+      std::deque<Message*> q;
+      b.map->findAll("c", nm, "*", true, true, true, true, true, false, 0, 0, false, &q);
+      if (q.size() == 1) m = q[0];
+      if (!m || m->isAvailable() != refAvailable(U[di], env)) b.availabilityOk = false;
+    }
   }
   return b;
 }
@@ -284,9 +359,19 @@ static string flagStr(unsigned f) {
 }
 
 // evaluate one state (ordered subset); memberOnly restricts the telegrams to those derived from its members
-static void runState(const vector<Def>& U, const vector<TeleEntry>& teles, const vector<int>& order, bool memberOnly) {
-  Built b = build(U, order);
-  R.state(vp::fnv(orderStr(order)));
+static void runState(const vector<Def>& U, const vector<TeleEntry>& teles, const vector<int>& order, bool memberOnly, const Env* env = nullptr) {
+  Built b = build(U, order, env);
+  string envStr = env ? ";e=" + std::to_string(env->code) + ";a=" + (env->onlyAvailable ? "1" : "0") : "";
+  R.state(vp::fnv(orderStr(order) + envStr));
+  if (env) {
+    R.count("states_with_conditional_definitions");
+    if (!b.availabilityOk) {
+      // availability through conditions is C13's subject; without agreement this state cannot be judged
+      R.count("states_skipped_availability_model_mismatch");
+      R.cap("isAvailable() disagrees with the environment model in a state (state not judged)");
+      return;
+    }
+  }
   uint64_t mask = 0;
   for (int di : order) mask |= 1ULL << di;
   R.count(string("maps_size_") + std::to_string(order.size()));
@@ -296,14 +381,15 @@ static void runState(const vector<Def>& U, const vector<TeleEntry>& teles, const
     if (memberOnly && !(e.derivedFrom & mask)) continue;
     unsigned nMust = 0;
     for (unsigned f = 0; f < 16; f++) {
-      const Message* m = b.map->find(e.ms, (f & F_ANYDEST) != 0, (f & F_READ) != 0, (f & F_WRITE) != 0, (f & F_PASSIVE) != 0);
+      const Message* m = b.map->find(e.ms, (f & F_ANYDEST) != 0, (f & F_READ) != 0, (f & F_WRITE) != 0, (f & F_PASSIVE) != 0,
+                                     env ? env->onlyAvailable : true);
       int res = resultIndex(m);
       R.evaluations++; R.transitions++; R.tracesValidated++;
-      Verdict v = judge(U, b.loaded, e.t, f, res);
+      Verdict v = judge(U, b.loaded, e.t, f, res, env);
       if (res >= 0) nMust++;
       if (!v.rule.empty()) {
-        R.violation(v.sig, v.detail + " [map " + orderStr(order) + ", telegram " + teleHex(e.t) + ", " + flagStr(f) + "]",
-                    "defs=" + orderStr(order) + ";t=" + teleHex(e.t) + ";f=" + std::to_string(f));
+        R.violation(v.sig, v.detail + " [map " + orderStr(order) + envStr + ", telegram " + teleHex(e.t) + ", " + flagStr(f) + "]",
+                    "defs=" + orderStr(order) + ";t=" + teleHex(e.t) + ";f=" + std::to_string(f) + envStr);
       }
     }
     if (nMust) {
@@ -311,7 +397,7 @@ static void runState(const vector<Def>& U, const vector<TeleEntry>& teles, const
       // non-trivial: more than one loaded definition is a candidate for this telegram
       int cand = 0;
       for (int di : b.loaded) { int l; const char* w; if (refMatch(U[di], e.t, 15, &l, &w) || refMatch(U[di], e.t, 14, &l, &w)) cand++; }
-      if (cand >= 2) { R.count("telegram_states_with_2plus_candidates"); if (order.size() <= 3) R.distinct(vp::fnv(orderStr(order) + "/" + teleHex(e.t))); }
+      if (cand >= 2) { R.count("telegram_states_with_2plus_candidates"); if (order.size() <= 3) R.distinct(vp::fnv(orderStr(order) + envStr + "/" + teleHex(e.t))); }
     }
   }
 }
@@ -329,23 +415,33 @@ static int replay(const vector<Def>& U, const string& c) {
   if (raw.size() < 5) { printf("bad telegram\n"); return 2; }
   Tele t{raw[0], raw[1], raw[2], raw[3], Bytes(raw.begin() + 5, raw.end())};
   unsigned f = (unsigned)atoi(m["f"].c_str());
-  Built b = build(U, order);
+  Env envv{atoi(m["e"].c_str()), m["a"] != "0"};
+  const Env* env = m.count("e") ? &envv : nullptr;
+  Built b = build(U, order, env);
+  if (env) {
+    printf("loaded first: the message the conditions refer to and the conditions [isA] (code=1), [isB] (code=2):\n");
+    for (auto line : c08::COND_PRELUDE) printf("  %s\n", line);
+  }
   printf("definitions added in this order (default columns type,circuit,name,comment,qq,zz,pbsb,id):\n");
   for (size_t i = 0; i < order.size(); i++)
     printf("  %s  -> %s\n", c08::defLine(U[order[i]], order[i]).c_str(), getResultCode(b.results[i]));
   MasterSymbolString ms; toMaster(t, &ms);
-  printf("telegram %s, lookup flags %s\n", teleHex(t).c_str(), flagStr(f).c_str());
+  if (env) printf("environment: %s; isAvailable() agrees with the model: %s\n", b.envLog.c_str(), b.availabilityOk ? "yes" : "NO");
+  printf("telegram %s, lookup flags %s%s\n", teleHex(t).c_str(), flagStr(f).c_str(), env ? (env->onlyAvailable ? ", onlyAvailable=true" : ", onlyAvailable=false") : "");
   printf("reference (linear scan over the loaded definitions):\n");
   for (int di : b.loaded) {
     int l; const char* why;
     int r = refMatch(U[di], t, f, &l, &why);
+    if (env && env->onlyAvailable && !refAvailable(U[di], env)) { printf("  n%02d: not available (condition not fulfilled)\n", di); continue; }
     printf("  n%02d: %s%s%s\n", di, r == 2 ? "matches" : r == 1 ? "undecided by the statement" : "does not match (", r ? "" : why, r ? "" : ")");
     if (r) printf("       matching ID length %d\n", l);
   }
-  const Message* msg = b.map->find(ms, (f & F_ANYDEST) != 0, (f & F_READ) != 0, (f & F_WRITE) != 0, (f & F_PASSIVE) != 0);
+  if (env && !b.availabilityOk) { printf("state not judged\nOK\n"); return 0; }
+  const Message* msg = b.map->find(ms, (f & F_ANYDEST) != 0, (f & F_READ) != 0, (f & F_WRITE) != 0, (f & F_PASSIVE) != 0,
+                                   env ? env->onlyAvailable : true);
   int res = resultIndex(msg);
   if (res >= 0) printf("observed: find() -> n%02d\n", res); else printf("observed: find() -> %s\n", res == -1 ? "nullptr" : "foreign message");
-  Verdict v = judge(U, b.loaded, t, f, res);
+  Verdict v = judge(U, b.loaded, t, f, res, env);
   if (v.rule.empty()) { printf("OK\n"); return 0; }
   printf("VIOLATES %s: %s\n", v.sig.c_str(), v.detail.c_str());
   return 1;
@@ -367,17 +463,25 @@ int main(int argc, char** argv) {
   bool coreLast = A.getInt("corelast", A.thorough() ? 1 : 0) != 0;   // 1: the largest size draws from the core universe only
   size_t maxSize = std::max(maxFull, maxMember);
   vector<int> all, core;
-  for (size_t i = 0; i < U.size(); i++) { all.push_back((int)i); if (U[i].core) core.push_back((int)i); }
-  R.note("universe " + std::to_string(U.size()) + " definitions (core " + std::to_string(core.size()) + "), " +
+  vector<int> condPool;   // availability pass: conditional definitions and their unconditional partners
+  for (size_t i = 0; i < U.size(); i++) {
+    if (U[i].cond || U[i].condPool) condPool.push_back((int)i);
+    if (U[i].cond) continue;
+    all.push_back((int)i); if (U[i].core) core.push_back((int)i);
+  }
+  R.note("universe " + std::to_string(all.size()) + " unconditional definitions (core " + std::to_string(core.size()) + ") + " +
+         std::to_string(U.size() - all.size()) + " conditional ones explored with " + std::to_string(condPool.size() - (U.size() - all.size())) + " partners in 5 environments, " +
          std::to_string(teles.size()) + " telegrams x 16 flag combinations");
 
   bool stop = false;
   // pass 1: all sizes over the full universe up to maxSize (or maxSize-1 when the last size uses the core)
   // pass 2: size maxSize over the core universe
-  for (int pass = 0; pass < 2 && !stop; pass++) {
-    const vector<int>& pool = pass == 0 ? all : core;
-    size_t lo = pass == 0 ? 0 : maxSize, hi = pass == 0 ? (coreLast ? maxSize - 1 : maxSize) : maxSize;
-    if (pass == 1 && !coreLast) break;
+  // pass 3 (availability): all sizes 1..maxSize over conditional definitions + partners, only states that contain
+  //         a conditional definition, each in every environment (value the conditions look at x onlyAvailable)
+  for (int pass = 0; pass < 3 && !stop; pass++) {
+    const vector<int>& pool = pass == 0 ? all : pass == 1 ? core : condPool;
+    size_t lo = pass == 0 ? 0 : pass == 1 ? maxSize : 1, hi = pass == 0 ? (coreLast ? maxSize - 1 : maxSize) : maxSize;
+    if (pass == 1 && !coreLast) continue;
     vector<int> order;
     vector<bool> used(U.size(), false);
     size_t firstK = 0;
@@ -387,7 +491,13 @@ int main(int argc, char** argv) {
       bool own = order.empty() ? A.part == 0 : order.size() == 1 ? (int)(firstK % A.nparts) == A.part : true;
       if (own && order.size() >= lo && order.size() <= hi) {
         if (R.expired()) { stop = true; return; }
-        runState(U, teles, order, order.size() > maxFull);
+        if (pass < 2) {
+          runState(U, teles, order, order.size() > maxFull);
+        } else {
+          bool hasCond = false;
+          for (int di : order) if (U[di].cond) hasCond = true;
+          if (hasCond) for (const Env& env : ENVS) runState(U, teles, order, order.size() > maxFull, &env);
+        }
       }
       if (order.size() >= hi) return;
       for (size_t k = 0; k < pool.size(); k++) {
@@ -406,6 +516,7 @@ int main(int argc, char** argv) {
     Tele t{0x31, 0x08, c08::PB, c08::SB, c08::hx("0d0100")};
     R.sample("state = ordered list of loaded definitions, e.g. [" + c08::defLine(U[3], 3) + " | " + c08::defLine(U[30], 30) + " | " + c08::defLine(U[13], 13) + "]");
     R.sample("telegram " + teleHex(t) + " from sources 10/03/31 to 08/15/fe/30 with each of 16 flag combinations; reference = linear scan, longest matching ID must win");
+    R.sample("availability: [" + c08::defLine(U[40], 40) + " | " + c08::defLine(U[41], 41) + "] with the condition message received as 1 / 2 / 3 / never, onlyAvailable true/false");
     R.sample("fold twins: " + c08::defLine(U[5], 5) + " and " + c08::defLine(U[8], 8) + " share one 64-bit key");
   }
   R.write(A.out);
